@@ -445,6 +445,24 @@ type c18VSA struct {
 	VendorID uint32 `avp:"Vendor-Id"`
 	AuthApp  uint32 `avp:"Auth-Application-Id"`
 }
+// c18VSAPtrOmit: optional members of a group held through pointers: nil = absent, a pointer to the
+// zero value = present with value 0 / "" (that is what the pointer is for)
+type c18VSAPtrOmit struct {
+	VendorID *uint32 `avp:"Vendor-Id,omitempty"`
+	AuthApp  *uint32 `avp:"Auth-Application-Id,omitempty"`
+	AcctApp  *uint32 `avp:"Acct-Application-Id,omitempty"`
+}
+type c18NestedPtrOmit struct {
+	Host string          `avp:"Origin-Host"`
+	One  c18VSAPtrOmit   `avp:"Vendor-Specific-Application-Id"`
+	Ptr  *c18VSAPtrOmit  `avp:"Failed-AVP"`
+}
+type c18NestedPtrOmitSlice struct {
+	Host string           `avp:"Origin-Host"`
+	VSA  []c18VSAPtrOmit  `avp:"Vendor-Specific-Application-Id"`
+	Ptrs []*c18VSAPtrOmit `avp:"Failed-AVP"`
+}
+
 type c18VSAOmit struct {
 	VendorID uint32 `avp:"Vendor-Id"`
 	AuthApp  uint32 `avp:"Auth-Application-Id,omitempty"`
@@ -525,6 +543,16 @@ type c18AVPGroupField struct {
 type c18AVPGroupPtrField struct {
 	VSA *diam.AVP `avp:"Vendor-Specific-Application-Id"`
 }
+type c18AVPValListField struct {
+	Vendors []diam.AVP `avp:"Supported-Vendor-Id"`
+	Host    string     `avp:"Origin-Host"`
+}
+type c18AVPValListInGroup struct {
+	Host string `avp:"Origin-Host"`
+	VSA  struct {
+		Members []diam.AVP `avp:"Vendor-Id"`
+	} `avp:"Vendor-Specific-Application-Id"`
+}
 type c18AVPListField struct {
 	Apps []*diam.AVP `avp:"Auth-Application-Id"`
 	Host string      `avp:"Origin-Host"`
@@ -565,6 +593,71 @@ func c18Statics() []c18Static {
 			}
 			a, b := u32s[v%3], u32s[v/3%3]
 			return &c18NestedPtr{Host: "h", VSA: &c18VSA{a, b}}, []refcodec.Node{strn(264, "h"), vsaNode(a, b)}, true
+		}},
+		{"nested-pointer-members-omitempty", func(v int) (interface{}, []refcodec.Node, bool) {
+			if v >= 27 {
+				return nil, nil, false
+			}
+			// each member: nil, pointer to 0, pointer to 7
+			mk := func(k int) (*uint32, bool, uint32) {
+				switch k {
+				case 0:
+					return nil, false, 0
+				case 1:
+					z := uint32(0)
+					return &z, true, 0
+				}
+				x := uint32(7)
+				return &x, true, 7
+			}
+			build := func() (c18VSAPtrOmit, []refcodec.Node) {
+				var g c18VSAPtrOmit
+				var kids []refcodec.Node
+				var ok bool
+				var val uint32
+				if g.VendorID, ok, val = mk(v % 3); ok {
+					kids = append(kids, u32n(266, val))
+				}
+				if g.AuthApp, ok, val = mk(v / 3 % 3); ok {
+					kids = append(kids, u32n(258, val))
+				}
+				if g.AcctApp, ok, val = mk(v / 9 % 3); ok {
+					kids = append(kids, u32n(259, val))
+				}
+				return g, kids
+			}
+			g1, k1 := build()
+			g2, k2 := build()
+			return &c18NestedPtrOmit{Host: "h", One: g1, Ptr: &g2}, []refcodec.Node{strn(264, "h"),
+				{Code: 260, Flags: 0x40, Group: true, Children: k1}, {Code: 279, Flags: 0x40, Group: true, Children: k2}}, true
+		}},
+		{"nested-pointer-members-omitempty-slices", func(v int) (interface{}, []refcodec.Node, bool) {
+			if v >= 3 {
+				return nil, nil, false
+			}
+			z, x := uint32(0), uint32(7)
+			gs := []c18VSAPtrOmit{{VendorID: &x, AuthApp: &z}, {AuthApp: &z, AcctApp: &z}, {VendorID: &z}}[:v+1]
+			s := &c18NestedPtrOmitSlice{Host: "h"}
+			want := []refcodec.Node{strn(264, "h")}
+			var second []refcodec.Node
+			for i := range gs {
+				g := gs[i]
+				var kids []refcodec.Node
+				if g.VendorID != nil {
+					kids = append(kids, u32n(266, *g.VendorID))
+				}
+				if g.AuthApp != nil {
+					kids = append(kids, u32n(258, *g.AuthApp))
+				}
+				if g.AcctApp != nil {
+					kids = append(kids, u32n(259, *g.AcctApp))
+				}
+				s.VSA = append(s.VSA, g)
+				s.Ptrs = append(s.Ptrs, &gs[i])
+				want = append(want, refcodec.Node{Code: 260, Flags: 0x40, Group: true, Children: kids})
+				second = append(second, refcodec.Node{Code: 279, Flags: 0x40, Group: true, Children: kids})
+			}
+			return s, append(want, second...), true
 		}},
 		{"nested-slice", func(v int) (interface{}, []refcodec.Node, bool) {
 			if v >= 5 {
@@ -704,6 +797,31 @@ func c18Statics() []c18Static {
 			}
 			g := &diam.GroupedAVP{AVP: []*diam.AVP{diam.NewAVP(266, 0x40, 0, datatype.Unsigned32(10415)), diam.NewAVP(258, 0x40, 0, datatype.Unsigned32(4))}}
 			return &c18AVPGroupPtrField{VSA: diam.NewAVP(260, 0x40, 0, g)}, []refcodec.Node{vsaNode(10415, 4)}, true
+		}},
+		{"[]AVP-field", func(v int) (interface{}, []refcodec.Node, bool) {
+			// ready-made AVP VALUES (not pointers) in a list: 0..3 different elements
+			if v >= 4 {
+				return nil, nil, false
+			}
+			s := &c18AVPValListField{Host: "h"}
+			var want []refcodec.Node
+			for i := 0; i < v; i++ {
+				s.Vendors = append(s.Vendors, *diam.NewAVP(265, 0x40, 0, datatype.Unsigned32(uint32(10415+i))))
+				want = append(want, u32n(265, uint32(10415+i)))
+			}
+			return s, append(want, strn(264, "h")), true
+		}},
+		{"[]AVP-field-in-group", func(v int) (interface{}, []refcodec.Node, bool) {
+			if v >= 4 {
+				return nil, nil, false
+			}
+			s := &c18AVPValListInGroup{Host: "h"}
+			var kids []refcodec.Node
+			for i := 0; i < v; i++ {
+				s.VSA.Members = append(s.VSA.Members, *diam.NewAVP(266, 0x40, 0, datatype.Unsigned32(uint32(7+i))))
+				kids = append(kids, u32n(266, uint32(7+i)))
+			}
+			return s, []refcodec.Node{strn(264, "h"), {Code: 260, Flags: 0x40, Group: true, Children: kids}}, true
 		}},
 		{"[]*AVP-field", func(v int) (interface{}, []refcodec.Node, bool) {
 			if v >= 8 {
@@ -965,7 +1083,7 @@ func runC18(ctx *ev.Ctx) {
 			}
 		}
 	}
-	ctx.Rule = "struct types built with reflect.StructOf: one field for each of 24 (AVP, holder family) rows - including fields declared with a go-diameter datatype other than the dictionary's, and a vendor-specific AVP whose must-not lists V - (including a vendor-specific AVP whose must attribute does not list V and a vendor-less one whose must does) (every scalar data type, a vendor-specific AVP, Float32/64, IPv4/6, IPFilterRule, QoSFilterRule from a generated dictionary) x each Go holder type (native scalar, datatype type, net.IP, []byte, time.Time) x wrapper {T, *T, []T, []*T} x nine tag forms (plain, omitempty, each with a second key before/after, other keys carrying their own ,omitempty option before/after) x values {boundary atoms; nil pointer; nil, empty, 1-, 2- and 4-element slices}; plus static shapes: nested struct, pointer to struct, slice of structs with omitempty members (an element or a pointed-to struct all of whose members are omitted still yields its - empty - Grouped AVP), slice of pointers, anonymous embedded struct (first, after a tagged field, in the middle, of an unexported type), group in group, AVP / *AVP / []*AVP fields; the struct shapes also in a message carrying a private dictionary that defines every name used with another code, other flags and vendor ids (members of nested structs must be resolved through the message's dictionary too). Six tag names the default dictionary defines differently in two applications (vendor id, flags or data type) are marshalled into messages of the one application, the other, and the first again, in both orders, in one process. Every struct shape is marshalled a second time, with its string members changed and its ready-made []*AVP list (built by append, or with a capacity hint) shared, into a second message: the first message must not change. Every other case marshals into a message that already holds an AVP and has been marshalled into before. Oracle: the AVP bytes Marshal produces equal the AVPs built by hand from the reference dictionary entry (code, vendor id, M from must, V from vendor, typed value); Unmarshal directly and after Serialize+ReadMessage reproduces the field values (nil == empty for slices, times by second, floats by bits)."
+	ctx.Rule = "struct types built with reflect.StructOf: one field for each of 24 (AVP, holder family) rows - including fields declared with a go-diameter datatype other than the dictionary's, and a vendor-specific AVP whose must-not lists V - (including a vendor-specific AVP whose must attribute does not list V and a vendor-less one whose must does) (every scalar data type, a vendor-specific AVP, Float32/64, IPv4/6, IPFilterRule, QoSFilterRule from a generated dictionary) x each Go holder type (native scalar, datatype type, net.IP, []byte, time.Time) x wrapper {T, *T, []T, []*T} x nine tag forms (plain, omitempty, each with a second key before/after, other keys carrying their own ,omitempty option before/after) x values {boundary atoms; nil pointer; nil, empty, 1-, 2- and 4-element slices}; plus static shapes: nested struct, pointer to struct, slice of structs with omitempty members (an element or a pointed-to struct all of whose members are omitted still yields its - empty - Grouped AVP), slice of pointers, anonymous embedded struct (first, after a tagged field, in the middle, of an unexported type), group in group, AVP / *AVP / []*AVP / []AVP fields (the last also as a group member), optional group members held through pointers with omitempty (each of three members nil, pointing to 0, pointing to 7 - a non-nil pointer to the zero value is a present member), in a nested struct, a pointer to one and slices of both; the struct shapes also in a message carrying a private dictionary that defines every name used with another code, other flags and vendor ids (members of nested structs must be resolved through the message's dictionary too). Six tag names the default dictionary defines differently in two applications (vendor id, flags or data type) are marshalled into messages of the one application, the other, and the first again, in both orders, in one process. Every struct shape is marshalled a second time, with its string members changed and its ready-made []*AVP list (built by append, or with a capacity hint) shared, into a second message: the first message must not change. Every other case marshals into a message that already holds an AVP and has been marshalled into before. Oracle: the AVP bytes Marshal produces equal the AVPs built by hand from the reference dictionary entry (code, vendor id, M from must, V from vendor, typed value); Unmarshal directly and after Serialize+ReadMessage reproduces the field values (nil == empty for slices, times by second, floats by bits)."
 	ctx.Assume = []string{"holder types are those for which the reflect code has a conversion path (AssignableTo / ConvertibleTo); Address holders carry IPv4 / IPv6 only"}
 }
 
